@@ -200,9 +200,11 @@ class WriterProxy(object):
 BASE_STUBS = ('SNMPv2-CONF', 'SNMPv2-SMI', 'SNMPv2-TC')
 
 
-def run_world(dirs, req, opts, flavour=False, fmt='json'):
+def run_world(dirs, req, opts, flavour=False, fmt='json', calls=1, between=None):
     """dirs = (src, src2, bor, dst) as written by checks.clitools.build_world.  Returns a trace dict like
-    harness.doubles.run_scenario: the real components answer, the proxies record."""
+    harness.doubles.run_scenario: the real components answer, the proxies record.
+    calls=2: compile() is called twice on the SAME MibCompiler (same reader / searcher / generator / writer objects);
+    `between()` runs in between (e.g. to age what the first call stored); a list of two traces is returned."""
     from pysmi.compiler import MibCompiler
     from pysmi.reader import FileReader
     from pysmi.searcher import AnyFileSearcher, StubSearcher
@@ -219,6 +221,16 @@ def run_world(dirs, req, opts, flavour=False, fmt='json'):
     c.addSearchers(SearcherProxy(rec, 1, AnyFileSearcher(dst).setOptions(exts=['.json'])),
                    SearcherProxy(rec, 2, StubSearcher(*BASE_STUBS)))
     c.addBorrowers(AnyFileBorrower(BorrowReaderProxy(rec, 1, FileReader(bor)), genTexts=flavour).setOptions(exts=['.json']))
+    traces = []
+    for callno in range(calls):
+        if callno and between:
+            between(traces[-1])
+        rec.log = CappedLog()
+        traces.append(_one_call(c, rec, req, opts, flavour, dst))
+    return traces[0] if calls == 1 else traces
+
+
+def _one_call(c, rec, req, opts, flavour, dst):
     ended, exc_cls, proc = 'return', '', []
     try:
         res = c.compile(*req, **opts)
